@@ -619,6 +619,7 @@ func propC13(c *Ctx) string {
 	c12Once(c, v, "C13")
 	// the in-flight state passes to the newcomer only if resuming leaves the stored session (stores, id counter) alone
 	c08Setup(c, v)
+	c13ClosedWait(c, v, "C13")
 	c13SessionSet(c, v, "C13")
 	// a connection taken over before its CONNACK completed still has its will published: the will is stored before
 	// the CONNACK is sent
@@ -2222,4 +2223,66 @@ func c13SessionSet(c *Ctx, v *vocab, prop string) {
 		}
 	}
 	r.Check(fi.Name+":session recorded right after Setup→ok", ok && n > 0, fi.Decl.Pos(), len(in.Traces), why, c.witness(wit)...)
+}
+
+// c13ClosedWait: Client.Closed() fires only after the connection's cleanup has run, and cleanup calls
+// Backend.Publish (will) and Backend.Terminate, which take the backend's global mutex. A goroutine that blocks on
+// Closed() while it holds that mutex therefore waits for something that needs the mutex: a permanent deadlock that
+// also stalls every other Setup/Publish/Subscribe/Terminate. Waiting for a client under the global mutex must use
+// Closing() (fires when the tomb starts dying, needs no lock); Setup waits for Closed() only after it released
+// the global mutex.
+func c13ClosedWait(c *Ctx, v *vocab, prop string) {
+	r := c.Rule(prop+"/CLOSEDWAIT", "LOCK", "no blocking receive from Client.Closed() happens while MemoryBackend.globalMutex is held (cleanup needs that mutex before Closed() can fire)", 1)
+	gm := c.P.Field("broker", "MemoryBackend", "globalMutex")
+	closedM := c.P.Method("broker", "Client", "Closed")
+	if gm == nil || closedM == nil {
+		r.Undecided("broker:Closed() waits", 0, "globalMutex or Client.Closed not found")
+		return
+	}
+	isWait := func(fi *FuncInfo, e *Event) bool {
+		if e.Kind != EvRecv || !e.Blocking || e.Chan == nil {
+			return false
+		}
+		call, ok := ast.Unparen(e.Chan).(*ast.CallExpr)
+		if !ok {
+			return false
+		}
+		f, _ := typeutilCallee(fi.Pkg.TypesInfo, call).(*types.Func)
+		return f == closedM
+	}
+	res := c.lockAnalysisEv("broker", map[*types.Var]guardSpec{}, nil, isWait)
+	type site struct {
+		a   *lockAccess
+		bad bool
+		n   int
+	}
+	sites := map[ast.Node]*site{}
+	var order []ast.Node
+	for i := range res.watched {
+		a := &res.watched[i]
+		s := sites[a.ev.Node]
+		if s == nil {
+			s = &site{a: a}
+			sites[a.ev.Node] = s
+			order = append(order, a.ev.Node)
+		}
+		s.n++
+		if _, held := a.held[gm]; held && !s.bad {
+			s.bad, s.a = true, a
+		}
+	}
+	sort.Slice(order, func(i, j int) bool { return order[i].Pos() < order[j].Pos() })
+	ord := map[string]int{}
+	for _, n := range order {
+		s := sites[n]
+		key := s.a.fn.Name + ":wait for Closed()"
+		ord[key]++
+		if ord[key] > 1 {
+			key = fmt.Sprintf("%s#%d", key, ord[key])
+		}
+		r.Check(key, !s.bad, s.a.ev.Pos, s.n, "the wait holds "+s.a.held.String()+": the awaited client's cleanup blocks on the same mutex before it can close the channel — deadlock of the whole backend", c.witness(s.a.trace)...)
+	}
+	if len(order) == 0 {
+		r.Undecided("broker:Closed() waits", 0, "no wait on Client.Closed() found (Setup's take-over wait expected)")
+	}
 }
